@@ -24,7 +24,7 @@ pub mod fastq {
         verus! { pub(super) trait IntoIterator { type Item; type IntoIter; spec fn ii_pre(self) -> bool; fn into_iter(self) -> Self::IntoIter requires self.ii_pre(); } }
     }
 
-//@default vis=strip
+//@default vis=strip r12=.
 
 //@item lib::try_opt
 //@item lib::unwrap_or
@@ -510,7 +510,7 @@ pub mod fastq {
         requires
             self.pos.0 + 2 <= self.seq <= buffer@.len(),
         ensures
-            [C12,C13,C02|fastq.bufpos.head] r@ == trim(buffer@.subrange(self.pos.0 + 1, self.seq - 1)),
+            [C02,C12,C13|fastq.bufpos.head] r@ == trim(buffer@.subrange(self.pos.0 + 1, self.seq - 1)),
 //@end
 
 //@fn fastq::BufferPosition::seq ret=r tags=C12,C13,C06
@@ -518,7 +518,7 @@ pub mod fastq {
         requires
             self.seq < self.sep <= buffer@.len(),
         ensures
-            [C12,C13,C02|fastq.bufpos.seq] r@ == trim(buffer@.subrange(self.seq as int, self.sep - 1)),
+            [C02,C12,C13|fastq.bufpos.seq] r@ == trim(buffer@.subrange(self.seq as int, self.sep - 1)),
 //@end
 
 //@fn fastq::BufferPosition::qual ret=r tags=C12,C13,C06
@@ -526,7 +526,7 @@ pub mod fastq {
         requires
             self.qual <= self.pos.1 <= buffer@.len(),
         ensures
-            [C12,C13,C02|fastq.bufpos.qual] r@ == trim(buffer@.subrange(self.qual as int, self.pos.1 as int)),
+            [C02,C12,C13|fastq.bufpos.qual] r@ == trim(buffer@.subrange(self.qual as int, self.pos.1 as int)),
 //@end
 }
 
@@ -536,7 +536,7 @@ pub mod fastq {
 //@fn fastq::Reader::get_buf ret=r tags=C06
 //@spec
         ensures
-            [C06,C02|fastq.get_buf.is_buffer] r@ == self.b(),
+            [C02,C03,C04,C06|fastq.get_buf.is_buffer] r@ == self.b(),
 //@end
 
 //@fn fastq::Reader::find_line ret=r tags=C02,C06
@@ -545,7 +545,7 @@ pub mod fastq {
             search_start <= self.b().len(),
             self.buf_reader.wf(),
         ensures
-            [C02,C03|fastq.find_line.result] match r {
+            [C02,C03,C04|fastq.find_line.result] match r {
                 Some(p) => nl(self.b(), search_start as int) < self.b().len() && p == nl(self.b(), search_start as int) + 1,
                 None => nl(self.b(), search_start as int) == self.b().len(),
             },
@@ -592,10 +592,10 @@ pub mod fastq {
             old(self).position.byte + (old(self).buf_pos.pos.1 + 1 - old(self).buf_pos.pos.0) <= u64::MAX,
             old(self).position.line + 4 <= u64::MAX,
         ensures
-            [C05,C03|fastq.increment_record.byte] final(self).position.byte == old(self).position.byte + (old(self).buf_pos.pos.1 + 1 - old(self).buf_pos.pos.0),
-            [C05,C03|fastq.increment_record.line] final(self).position.line == old(self).position.line + 4,
-            [C05,C04,C02|fastq.increment_record.start] final(self).buf_pos.pos.0 == old(self).buf_pos.pos.1 + 1,
-            [C05,C06|fastq.increment_record.frame] final(self).buf_reader == old(self).buf_reader && final(self).buf_policy == old(self).buf_policy
+            [C02,C03,C04,C05|fastq.increment_record.byte] final(self).position.byte == old(self).position.byte + (old(self).buf_pos.pos.1 + 1 - old(self).buf_pos.pos.0),
+            [C02,C03,C04,C05|fastq.increment_record.line] final(self).position.line == old(self).position.line + 4,
+            [C02,C03,C04,C05|fastq.increment_record.start] final(self).buf_pos.pos.0 == old(self).buf_pos.pos.1 + 1,
+            [C02,C03,C04,C05,C06|fastq.increment_record.frame] final(self).buf_reader == old(self).buf_reader && final(self).buf_policy == old(self).buf_policy
                 && final(self).state == old(self).state && final(self).incomplete_pos == old(self).incomplete_pos
                 && final(self).buf_pos.pos.1 == old(self).buf_pos.pos.1 && final(self).buf_pos.seq == old(self).buf_pos.seq
                 && final(self).buf_pos.sep == old(self).buf_pos.sep && final(self).buf_pos.qual == old(self).buf_pos.qual,
@@ -608,12 +608,12 @@ pub mod fastq {
             old(self).buf_pos.pos.0 <= old(self).b().len(),
             old(self).position.line + 4 <= u64::MAX,
         ensures
-            [C02,C06|fastq.search.frame] final(self).same_io(old(self)) && final(self).buf_pos.pos.0 == old(self).buf_pos.pos.0,
-            [C02|fastq.search.found] r matches Ok(true) ==> final(self).buf_pos.valid(final(self).b()) && final(self).buf_pos.pos.1 < final(self).b().len()
+            [C02,C03,C04,C05,C06|fastq.search.frame] final(self).same_io(old(self)) && final(self).buf_pos.pos.0 == old(self).buf_pos.pos.0,
+            [C02,C03,C04|fastq.search.found] r matches Ok(true) ==> final(self).buf_pos.valid(final(self).b()) && final(self).buf_pos.pos.1 < final(self).b().len()
                 && final(self).state == old(self).state && final(self).incomplete_pos == old(self).incomplete_pos,
-            [C02|fastq.search.incomplete] r matches Ok(false) ==> (final(self).incomplete_pos matches Some(k) && stuck(final(self).b(), final(self).buf_pos, rp(k)))
+            [C02,C03,C04|fastq.search.incomplete] r matches Ok(false) ==> (final(self).incomplete_pos matches Some(k) && stuck(final(self).b(), final(self).buf_pos, rp(k)))
                 && final(self).state == old(self).state,
-            [C02,C17|fastq.search.error] r matches Err(e) ==> final(self).buf_pos.complete(final(self).b()) && final(self).buf_pos.pos.1 < final(self).b().len()
+            [C02,C03,C14,C17|fastq.search.error] r matches Err(e) ==> final(self).buf_pos.complete(final(self).b()) && final(self).buf_pos.pos.1 < final(self).b().len()
                 && verr(e, final(self).b(), final(self).buf_pos.pos.0 as int, final(self).position.line as int)
                 && final(self).state == State::Finished && final(self).incomplete_pos == old(self).incomplete_pos,
 //@body_start
@@ -627,12 +627,12 @@ pub mod fastq {
             chain(old(self).b(), old(self).buf_pos, rp(pos)),
             old(self).position.line + 4 <= u64::MAX,
         ensures
-            [C02,C06|fastq.search_incomplete.frame] final(self).same_io(old(self)) && final(self).buf_pos.pos.0 == old(self).buf_pos.pos.0,
-            [C02|fastq.search_incomplete.found] r matches Ok(None) ==> final(self).buf_pos.valid(final(self).b()) && final(self).buf_pos.pos.1 < final(self).b().len()
+            [C02,C03,C04,C05,C06|fastq.search_incomplete.frame] final(self).same_io(old(self)) && final(self).buf_pos.pos.0 == old(self).buf_pos.pos.0,
+            [C02,C03,C04|fastq.search_incomplete.found] r matches Ok(None) ==> final(self).buf_pos.valid(final(self).b()) && final(self).buf_pos.pos.1 < final(self).b().len()
                 && final(self).state == old(self).state && final(self).incomplete_pos is None,
-            [C02|fastq.search_incomplete.incomplete] r matches Ok(Some(k)) ==> stuck(final(self).b(), final(self).buf_pos, rp(k)) && rp(k) >= rp(pos)
+            [C02,C03,C04|fastq.search_incomplete.incomplete] r matches Ok(Some(k)) ==> stuck(final(self).b(), final(self).buf_pos, rp(k)) && rp(k) >= rp(pos)
                 && final(self).incomplete_pos == Some(k) && final(self).state == old(self).state,
-            [C02,C17|fastq.search_incomplete.error] r matches Err(e) ==> final(self).buf_pos.complete(final(self).b()) && final(self).buf_pos.pos.1 < final(self).b().len()
+            [C02,C03,C04,C14,C17|fastq.search_incomplete.error] r matches Err(e) ==> final(self).buf_pos.complete(final(self).b()) && final(self).buf_pos.pos.1 < final(self).b().len()
                 && verr(e, final(self).b(), final(self).buf_pos.pos.0 as int, final(self).position.line as int)
                 && final(self).state == State::Finished && final(self).incomplete_pos is None,
 //@body_start
@@ -645,7 +645,7 @@ pub mod fastq {
             old(self).wf0(),
             old(self).b().len() == old(self).buf_reader.cap(),
         ensures
-            [C09,C03,C06|fastq.grow.frame] final(self).buf_reader.buf() == old(self).buf_reader.buf() && final(self).buf_reader.base() == old(self).buf_reader.base()
+            [C02,C03,C04,C05,C06,C09|fastq.grow.frame] final(self).buf_reader.buf() == old(self).buf_reader.buf() && final(self).buf_reader.base() == old(self).buf_reader.base()
                 && final(self).buf_reader.same_source(&old(self).buf_reader)
                 && final(self).buf_pos == old(self).buf_pos && final(self).position == old(self).position
                 && final(self).state == old(self).state && final(self).incomplete_pos == old(self).incomplete_pos
@@ -662,14 +662,14 @@ pub mod fastq {
             old(self).wf0(),
             chain(old(self).b(), old(self).buf_pos, rp(incomplete_pos)),
         ensures
-            [C03,C06|fastq.make_room.window] final(self).wf0() && final(self).buf_reader.cap() == old(self).buf_reader.cap()
+            [C02,C03,C04,C05,C06|fastq.make_room.window] final(self).wf0() && final(self).buf_reader.cap() == old(self).buf_reader.cap()
                 && final(self).b() == old(self).b().subrange(old(self).buf_pos.pos.0 as int, old(self).b().len() as int)
                 && final(self).base() == old(self).base() + old(self).buf_pos.pos.0
                 && final(self).buf_reader.same_source(&old(self).buf_reader),
-            [C03,C05|fastq.make_room.offsets_shifted] final(self).buf_pos.pos.0 == 0
+            [C02,C03,C04,C05|fastq.make_room.offsets_shifted] final(self).buf_pos.pos.0 == 0
                 && chain(final(self).b(), final(self).buf_pos, rp(incomplete_pos))
                 && (stuck(old(self).b(), old(self).buf_pos, rp(incomplete_pos)) ==> stuck(final(self).b(), final(self).buf_pos, rp(incomplete_pos))),
-            [C03,C06|fastq.make_room.frame] final(self).position == old(self).position && final(self).state == old(self).state
+            [C02,C03,C04,C05,C06|fastq.make_room.frame] final(self).position == old(self).position && final(self).state == old(self).state
                 && final(self).incomplete_pos == old(self).incomplete_pos && final(self).buf_policy == old(self).buf_policy,
 //@body_start
         proof { reveal(chain_body); lemma_chain_shift(self.b(), self.buf_pos, rp(incomplete_pos)); }
@@ -682,10 +682,10 @@ pub mod fastq {
             old(self).buf_pos.complete(old(self).b()),
             old(self).position.line + 4 <= u64::MAX,
         ensures
-            [C02,C06|fastq.validate.frame] final(self).same_io(old(self)) && final(self).buf_pos == old(self).buf_pos
+            [C02,C03,C04,C05,C06|fastq.validate.frame] final(self).same_io(old(self)) && final(self).buf_pos == old(self).buf_pos
                 && final(self).incomplete_pos == old(self).incomplete_pos,
-            [C02,C12|fastq.validate.ok] r is Ok ==> vok(final(self).b(), final(self).buf_pos.pos.0 as int) && final(self).state == old(self).state,
-            [C02,C12,C17|fastq.validate.err] r matches Err(e) ==> verr(e, final(self).b(), final(self).buf_pos.pos.0 as int, final(self).position.line as int)
+            [C02,C03,C04,C12|fastq.validate.ok] r is Ok ==> vok(final(self).b(), final(self).buf_pos.pos.0 as int) && final(self).state == old(self).state,
+            [C02,C03,C12,C14,C17|fastq.validate.err] r matches Err(e) ==> verr(e, final(self).b(), final(self).buf_pos.pos.0 as int, final(self).position.line as int)
                 && final(self).state == State::Finished,
 //@body_start
         proof { reveal(chain_body); reveal(may_accept); reveal(may_reject); reveal(verr_body); lemma_chain_bounds(self.b(), self.buf_pos.pos.0 as int); }
@@ -716,15 +716,15 @@ pub mod fastq {
             stuck(old(self).b(), old(self).buf_pos, rp(pos)),
             old(self).position.line + 4 <= u64::MAX,
         ensures
-            [C02,C06|fastq.check_end.frame] final(self).same_io(old(self)) && final(self).buf_pos.pos.0 == old(self).buf_pos.pos.0
+            [C02,C03,C04,C05,C06|fastq.check_end.frame] final(self).same_io(old(self)) && final(self).buf_pos.pos.0 == old(self).buf_pos.pos.0
                 && final(self).incomplete_pos == old(self).incomplete_pos,
-            [C02,C12|fastq.check_end.last_record] pos == RecordPos::Qual ==> match r {
+            [C02,C03,C04,C12|fastq.check_end.last_record] pos == RecordPos::Qual ==> match r {
                 Ok(found) => found && final(self).buf_pos.valid(final(self).b()) && final(self).buf_pos.pos.1 == final(self).b().len()
                              && final(self).state == old(self).state,
                 Err(e) => verr(e, final(self).b(), final(self).buf_pos.pos.0 as int, final(self).position.line as int)
                           && final(self).buf_pos.complete(final(self).b()) && final(self).state == State::Finished,
             },
-            [C02,C12,C17|fastq.check_end.tail] pos != RecordPos::Qual ==> final(self).state == old(self).state && final(self).buf_pos == old(self).buf_pos && match r {
+            [C02,C03,C04,C12,C17|fastq.check_end.tail] pos != RecordPos::Qual ==> final(self).state == old(self).state && final(self).buf_pos == old(self).buf_pos && match r {
                 Ok(found) => !found && all_blank(final(self).b().subrange(final(self).buf_pos.pos.0 as int, final(self).b().len() as int), 0),
                 Err(e) => !all_blank(final(self).b().subrange(final(self).buf_pos.pos.0 as int, final(self).b().len() as int), 0)
                           && eerr(e, final(self).b(), final(self).buf_pos.pos.0 as int, final(self).position.line as int),
@@ -734,7 +734,7 @@ pub mod fastq {
 //@closure 0 params="c: &u8" ret="(r: bool)"
             ensures r == (*c == 10u8)
 //@closure 1 params="l: &[u8]" ret="(r: bool)"
-            [C02,C12|fastq.check_end.blank_test_trims_cr] ensures r == blank(l@)
+            [C02,C03,C04,C12|fastq.check_end.blank_test_trims_cr] ensures r == blank(l@)
 //@all 0
             invariant_except_break
                 vx_r0,
@@ -747,7 +747,7 @@ pub mod fastq {
                 forall|x: &[u8], y: bool| call_ensures(vx_f0, (x,), y) ==> y == blank(x@),
                 forall|x: &[u8]| call_requires(vx_f0, (x,)),
             ensures
-                [C02,C12|fastq.check_end.blank_tail_loop] vx_r0 == all_blank(rest@, 0),
+                [C02,C03,C04,C12|fastq.check_end.blank_tail_loop] vx_r0 == all_blank(rest@, 0),
             decreases (if split_done(&vx_it0) { 0int } else { split_rest(&vx_it0).len() as int + 1 }),
 //---pre
             let ghost sr0 = split_rest(&vx_it0);
@@ -810,13 +810,13 @@ pub mod fastq {
         requires
             old(self).wf(), old(self).state == State::New,
         ensures
-            [C06,C14|fastq.init.frame] final(self).wf0() && final(self).f() == old(self).f() && final(self).buf_policy == old(self).buf_policy
+            [C02,C03,C04,C05,C06,C14|fastq.init.frame] final(self).wf0() && final(self).f() == old(self).f() && final(self).buf_policy == old(self).buf_policy
                 && final(self).position == old(self).position && final(self).buf_pos == old(self).buf_pos && final(self).incomplete_pos is None
                 && final(self).base() == 0 && (r matches Ok(true) || final(self).wf()) && final(self).buf_reader.cap() == old(self).buf_reader.cap(),
-            [C02,C14|fastq.init.ok] r matches Ok(more) ==> final(self).buf_reader.errs() == old(self).buf_reader.errs() && final(self).filled()
+            [C02,C03,C04,C14|fastq.init.ok] r matches Ok(more) ==> final(self).buf_reader.errs() == old(self).buf_reader.errs() && final(self).filled()
                 && (more ==> final(self).state == State::New && final(self).b().len() > 0)
                 && (!more ==> final(self).state == State::Finished && (!old(self).poisoned() ==> final(self).f().len() == 0)),
-            [C14|fastq.init.err] r matches Err(e) ==> final(self).state == State::New
+            [C02,C03,C14,C17|fastq.init.err] r matches Err(e) ==> final(self).state == State::New
                 && (e matches Error::Io(x) && final(self).buf_reader.errs() == old(self).buf_reader.errs().push(x)),
 //@end
 
@@ -828,9 +828,9 @@ pub mod fastq {
             old(self).position.byte == old(self).gpos(),
             old(self).coords(),
         ensures
-            [C03,C05,C06|fastq.resume.frame] final(self).wf0() && final(self).f() == old(self).f() && final(self).gpos() == old(self).gpos()
+            [C02,C03,C04,C05,C06|fastq.resume.frame] final(self).wf0() && final(self).f() == old(self).f() && final(self).gpos() == old(self).gpos()
                 && final(self).position == old(self).position && final(self).filled() && final(self).buf_pos.pos.0 <= final(self).b().len(),
-            [C02,C03|fastq.resume.found] r matches Ok(true) ==> final(self).filled() && final(self).buf_pos.valid(final(self).b())
+            [C02,C03,C04|fastq.resume.found] r matches Ok(true) ==> final(self).filled() && final(self).buf_pos.valid(final(self).b())
                 && final(self).buf_reader.errs() == old(self).buf_reader.errs()
                 && ((final(self).state == old(self).state && final(self).incomplete_pos is None && final(self).buf_pos.pos.1 < final(self).b().len())
                     || final(self).state == State::Finished)
@@ -838,17 +838,15 @@ pub mod fastq {
                     && final(self).base() + final(self).buf_pos.pos.1 == c4(final(self).f(), final(self).gpos())
                     && (final(self).state == State::Finished && final(self).state != old(self).state ==> c4(final(self).f(), final(self).gpos()) == final(self).f().len())
                     && (final(self).buf_pos.pos.1 < final(self).b().len() || final(self).base() + final(self).b().len() == final(self).f().len())),
-            [C02,C03|fastq.resume.end] r matches Ok(false) ==> final(self).state == State::Finished
+            [C02,C03,C04|fastq.resume.end] r matches Ok(false) ==> final(self).state == State::Finished
                 && final(self).buf_reader.errs() == old(self).buf_reader.errs()
                 && (final(self).clean() ==> end_ok(final(self).f(), final(self).gpos())),
-            [C02,C14,C17,C09|fastq.resume.err] r matches Err(e) ==> match e {
-                Error::Io(x) => final(self).buf_reader.errs() == old(self).buf_reader.errs().push(x),
-                Error::BufferLimit => final(self).buf_reader.errs() == old(self).buf_reader.errs(),
-                _ => final(self).buf_reader.errs() == old(self).buf_reader.errs()
-                     && (final(self).clean() ==> fmt_err(e, final(self).f(), final(self).gpos(), final(self).position.line as int)),
-            },
-            [C06,C02|fastq.resume.err_terminal] r is Err ==> final(self).state == State::Finished,
-            [C04,C03|fastq.resume.no_compaction_when_told] !make_room ==> final(self).base() == old(self).base()
+            [C14|fastq.resume.err_io] r matches Err(e) ==> (e matches Error::Io(x) ==> final(self).buf_reader.errs() == old(self).buf_reader.errs().push(x)),
+            [C09|fastq.resume.err_limit] r matches Err(e) ==> (e is BufferLimit ==> final(self).buf_reader.errs() == old(self).buf_reader.errs()),
+            [C02,C03,C04,C17|fastq.resume.err_format] r matches Err(e) ==> (fmt_variant(e) ==> final(self).buf_reader.errs() == old(self).buf_reader.errs()
+                     && (final(self).clean() ==> fmt_err(e, final(self).f(), final(self).gpos(), final(self).position.line as int))),
+            [C02,C03,C06,C17|fastq.resume.err_terminal] r is Err ==> final(self).state == State::Finished,
+            [C02,C03,C04|fastq.resume.no_compaction_when_told] !make_room ==> final(self).base() == old(self).base()
                 && final(self).buf_pos.pos.0 == old(self).buf_pos.pos.0
                 && old(self).b().len() <= final(self).b().len() && final(self).b().subrange(0, old(self).b().len() as int) == old(self).b(),
             [C09|fastq.resume.capacity_monotone] final(self).buf_reader.cap() >= old(self).buf_reader.cap(),
@@ -858,12 +856,12 @@ pub mod fastq {
         proof { lemma_count_lf_mono(self.f(), 0, self.position.byte as int); }
 //@loop 0 kw=loop
             invariant
-                [C03,C06|fastq.resume.inv.frame] self.wf0() && self.filled() && self.f() == old(self).f() && self.gpos() == old(self).gpos()
+                [C02,C03,C04,C05,C06|fastq.resume.inv.frame] self.wf0() && self.filled() && self.f() == old(self).f() && self.gpos() == old(self).gpos()
                     && self.position == old(self).position && self.coords() && self.position.line + 4 <= u64::MAX,
-                [C02,C03|fastq.resume.inv.stuck] stuck(self.b(), self.buf_pos, rp(incomplete_pos)),
+                [C02,C03,C04|fastq.resume.inv.stuck] stuck(self.b(), self.buf_pos, rp(incomplete_pos)),
                 [C14|fastq.resume.inv.errs] self.buf_reader.errs() == old(self).buf_reader.errs(),
-                [C06|fastq.resume.inv.state] self.state == old(self).state,
-                [C04,C03|fastq.resume.inv.no_compaction] !make_room ==> self.base() == old(self).base() && self.buf_pos.pos.0 == old(self).buf_pos.pos.0
+                [C02,C03,C04,C05,C06|fastq.resume.inv.state] self.state == old(self).state,
+                [C02,C03,C04|fastq.resume.inv.no_compaction] !make_room ==> self.base() == old(self).base() && self.buf_pos.pos.0 == old(self).buf_pos.pos.0
                     && old(self).b().len() <= self.b().len() && self.b().subrange(0, old(self).b().len() as int) == old(self).b(),
                 [C09|fastq.resume.inv.capacity] self.buf_reader.cap() >= old(self).buf_reader.cap()
                     && (make_room && self.buf_reader.cap() > old(self).buf_reader.cap() ==>
@@ -912,10 +910,10 @@ pub mod fastq {
         requires
             old(self).wf(),
         ensures
-            [C06|fastq.next.wf] final(self).wf() && final(self).f() == old(self).f(),
-            [C02,C06|fastq.next.end] r is None ==> final(self).buf_reader.errs() == old(self).buf_reader.errs() && final(self).state == State::Finished
+            [C02,C03,C04,C05,C06|fastq.next.wf] final(self).wf() && final(self).f() == old(self).f(),
+            [C02,C03,C04,C06|fastq.next.end] r is None ==> final(self).buf_reader.errs() == old(self).buf_reader.errs() && final(self).state == State::Finished
                 && (old(self).state == State::Finished || old(self).poisoned() || !old(self).clean() || end_ok(old(self).f(), old(self).cursor())),
-            [C02,C03,C06,C12|fastq.next.record] r matches Some(Ok(rec)) ==> final(self).buf_reader.errs() == old(self).buf_reader.errs()
+            [C02,C03,C04,C06,C12|fastq.next.record] r matches Some(Ok(rec)) ==> final(self).buf_reader.errs() == old(self).buf_reader.errs()
                 && old(self).state != State::Finished
                 && rec.buffer@ == final(self).b() && *rec.buf_pos == final(self).buf_pos && rec.buf_pos.valid(rec.buffer@)
                 && (final(self).state == State::Parsing || final(self).state == State::Finished)
@@ -927,9 +925,9 @@ pub mod fastq {
                     &&& final(self).base() + final(self).buf_pos.pos.1 == c4(ff, p)
                     &&& (final(self).state == State::Finished ==> c4(ff, p) == ff.len())
                 })),
-            [C05,C03|fastq.next.position] r matches Some(Ok(rec)) && !old(self).poisoned() && old(self).clean() ==>
+            [C03,C05|fastq.next.position] r matches Some(Ok(rec)) && !old(self).poisoned() && old(self).clean() ==>
                 final(self).position.byte == old(self).cursor() && final(self).position.line == true_line(old(self).f(), old(self).cursor()),
-            [C02,C14,C17,C06|fastq.next.error] r matches Some(Err(e)) ==>
+            [C02,C03,C06,C14,C17|fastq.next.error] r matches Some(Err(e)) ==>
                 (final(self).state == State::Finished || (old(self).state == State::New && final(self).state == State::New && e is Io))
                 && match e {
                     Error::Io(x) => final(self).buf_reader.errs() == old(self).buf_reader.errs().push(x),
@@ -975,12 +973,12 @@ pub mod fastq {
             to.byte <= old(self).f().len(),
             to.line == true_line(old(self).f(), to.byte as int),
         ensures
-            [C05,C06|fastq.seek.frame] final(self).f() == old(self).f() && final(self).buf_policy == old(self).buf_policy,
-            [C05,C03|fastq.seek.positioned] r is Ok ==> final(self).wf() && final(self).state == State::Positioned && final(self).incomplete_pos is None
+            [C02,C03,C04,C05,C06|fastq.seek.frame] final(self).f() == old(self).f() && final(self).buf_policy == old(self).buf_policy,
+            [C03,C05|fastq.seek.positioned] r is Ok ==> final(self).wf() && final(self).state == State::Positioned && final(self).incomplete_pos is None
                 && final(self).position == *to && final(self).gpos() == to.byte && final(self).cursor() == to.byte
                 && final(self).buf_reader.errs() == old(self).buf_reader.errs(),
             [C09|fastq.seek.capacity] final(self).buf_reader.cap() == old(self).buf_reader.cap(),
-            [C14|fastq.seek.err] r matches Err(e) ==> (e matches Error::Io(x) && final(self).buf_reader.errs() == old(self).buf_reader.errs().push(x)),
+            [C02,C03,C14,C17|fastq.seek.err] r matches Err(e) ==> (e matches Error::Io(x) && final(self).buf_reader.errs() == old(self).buf_reader.errs().push(x)),
 //@end
 }
 
@@ -990,7 +988,7 @@ pub mod fastq {
         requires
             3 <= capacity <= isize::MAX,
         ensures
-            [C06,C02|fastq.with_capacity.fresh] r.wf() && r.state == State::New && r.b().len() == 0 && r.clean() && r.cursor() == 0
+            [C02,C03,C04,C05,C06|fastq.with_capacity.fresh] r.wf() && r.state == State::New && r.b().len() == 0 && r.clean() && r.cursor() == 0
                 && r.position.line == 1 && r.position.byte == 0,
             [C09|fastq.with_capacity.capacity] r.buf_reader.cap() >= capacity,
 //@end
@@ -1030,19 +1028,19 @@ pub mod fastq {
 //@spec
         requires self.rwf(),
         ensures
-            [C13,C12|fastq.Record.head] r@ == self.head_s(),
+            [C12,C13|fastq.Record.head] r@ == self.head_s(),
 //@end
 //@sig fastq::Record::seq ret=r tags=C13
 //@spec
         requires self.rwf(),
         ensures
-            [C13,C12|fastq.Record.seq] r@ == self.seq_s(),
+            [C12,C13|fastq.Record.seq] r@ == self.seq_s(),
 //@end
 //@sig fastq::Record::qual ret=r tags=C13
 //@spec
         requires self.rwf(),
         ensures
-            [C13,C12|fastq.Record.qual] r@ == self.qual_s(),
+            [C12,C13|fastq.Record.qual] r@ == self.qual_s(),
 //@end
 
 }
@@ -1140,7 +1138,7 @@ trait RecordD {
 //@spec
         requires self.rwf(),
         ensures
-            [C13,C04|fastq.to_owned_record] r.head@ == self.head_v() && r.seq@ == self.seq_v() && r.qual@ == self.qual_v(),
+            [C04,C13|fastq.to_owned_record] r.head@ == self.head_v() && r.seq@ == self.seq_v() && r.qual@ == self.qual_v(),
 //@end
 
 //@fn fastq::RefRecord::write_unchanged ret=r tags=C11
@@ -1229,10 +1227,10 @@ trait RecordD {
 //@fn fastq::Iterator for RecordSetIter::next ret=r tags=C04,C20,C06
 //@spec
         ensures
-            [C20,C04|fastq.RecordSetIter.next.some] old(self).rem().len() > 0 ==> (r matches Some(rec) && rec.buf_pos == old(self).rem()[0] && rec.buffer@ == old(self).buffer@
+            [C04,C20|fastq.RecordSetIter.next.some] old(self).rem().len() > 0 ==> (r matches Some(rec) && rec.buf_pos == old(self).rem()[0] && rec.buffer@ == old(self).buffer@
                 && rec.rwf() && final(self).rem() == old(self).rem().drop_first()),
             [C20|fastq.RecordSetIter.next.none_is_sticky] old(self).rem().len() == 0 ==> r is None && final(self).rem().len() == 0,
-            [C20,C06|fastq.RecordSetIter.next.frame] final(self).iwf() && final(self).buffer == old(self).buffer,
+            [C06,C20|fastq.RecordSetIter.next.frame] final(self).iwf() && final(self).buffer == old(self).buffer,
 //@closure 0 params="p: &'a BufferPosition" ret="(q: RefRecord<'a>)"
             ensures q.buffer == self.buffer && q.buf_pos == p
 //@end
@@ -1268,8 +1266,8 @@ trait RecordD {
             old(self).wf(), old(rset).wf(),
             n_records != Some(0usize),
         ensures
-            [C06,C04|fastq.read_set.wf] final(self).wf() && final(self).f() == old(self).f() && final(rset).wf(),
-            [C04|fastq.read_set.ok] r matches Some(Ok(_)) ==> final(rset).n() >= 1 && final(self).buf_reader.errs() == old(self).buf_reader.errs()
+            [C02,C03,C04,C05,C06|fastq.read_set.wf] final(self).wf() && final(self).f() == old(self).f() && final(rset).wf(),
+            [C02,C03,C04|fastq.read_set.ok] r matches Some(Ok(_)) ==> final(rset).n() >= 1 && final(self).buf_reader.errs() == old(self).buf_reader.errs()
                 && old(self).state != State::Finished
                 && (n_records matches Some(m) ==> final(rset).n() <= m)
                 && (old(self).clean() && !old(self).poisoned() ==> ({
@@ -1280,21 +1278,21 @@ trait RecordD {
                     &&& (final(self).state == State::Finished ==> end_ok(ff, gstart(ff, p0, k)))
                     &&& (n_records matches Some(m) ==> k == m || final(self).state == State::Finished)
                 })),
-            [C05|fastq.read_set.position] r matches Some(Ok(_)) && old(self).clean() && !old(self).poisoned() && final(self).state != State::Finished ==>
+            [C03,C05|fastq.read_set.position] r matches Some(Ok(_)) && old(self).clean() && !old(self).poisoned() && final(self).state != State::Finished ==>
                 final(self).position.byte == gstart(old(self).f(), old(self).cursor(), final(rset).n())
                 && final(self).position.line == true_line(old(self).f(), final(self).position.byte as int),
             [C09|fastq.read_set.capacity_monotone] final(self).buf_reader.cap() >= old(self).buf_reader.cap(),
             [C09|fastq.read_set.plain_sets_grow_only_when_a_record_does_not_fit] n_records is None && old(self).clean() && !old(self).poisoned()
                 && final(self).buf_reader.cap() > old(self).buf_reader.cap() ==>
                 exists|j: int| 0 <= j && #[trigger] nofit(old(self).f(), gstart(old(self).f(), old(self).cursor(), j), old(self).buf_reader.cap() as int),
-            [C04,C06|fastq.read_set.none] r is None ==> final(self).buf_reader.errs() == old(self).buf_reader.errs() && final(self).state == State::Finished
+            [C02,C03,C04,C06|fastq.read_set.none] r is None ==> final(self).buf_reader.errs() == old(self).buf_reader.errs() && final(self).state == State::Finished
                 && (old(self).state == State::Finished || old(self).poisoned() || !old(self).clean() || end_ok(old(self).f(), old(self).cursor())),
-            [C06|fastq.read_set.err_terminal] r matches Some(Err(e)) ==>
+            [C02,C03,C06,C17|fastq.read_set.err_terminal] r matches Some(Err(e)) ==>
                 (final(self).state == State::Finished || (old(self).state == State::New && final(self).state == State::New && e is Io)),
             [C14|fastq.read_set.err_io] r matches Some(Err(e)) ==> (match e {
                     Error::Io(x) => final(self).buf_reader.errs() == old(self).buf_reader.errs().push(x),
                     _ => final(self).buf_reader.errs() == old(self).buf_reader.errs() }),
-            [C04,C17|fastq.read_set.err_format] r matches Some(Err(e)) ==> (fmt_variant(e) ==> old(self).state != State::Finished
+            [C02,C03,C04,C17|fastq.read_set.err_format] r matches Some(Err(e)) ==> (fmt_variant(e) ==> old(self).state != State::Finished
                 && (!old(self).poisoned() && old(self).clean() ==> exists|j: int| 0 <= j && run_ok(old(self).f(), old(self).cursor(), j)
                     && #[trigger] fmt_err(e, old(self).f(), gstart(old(self).f(), old(self).cursor(), j), true_line(old(self).f(), gstart(old(self).f(), old(self).cursor(), j))))),
 //@body_start
@@ -1310,16 +1308,16 @@ trait RecordD {
                 n_records matches Some(m) ==> rset.n() < m,
                 self.state != State::Finished && self.incomplete_pos is Some && rset.n() > 0 ==> !is_new,
             invariant
-                [C04,C06|fastq.read_set.inv.state] self.rs_a(old(self), rset, is_new, n_records),
-                [C04,C06|fastq.read_set.inv.positions_valid] self.rs_b(rset),
-                [C04|fastq.read_set.inv.records_are_the_next_k] self.rs_c(old(self), rset),
+                [C02,C03,C04,C05,C06|fastq.read_set.inv.state] self.rs_a(old(self), rset, is_new, n_records),
+                [C02,C03,C04,C05,C06|fastq.read_set.inv.positions_valid] self.rs_b(rset),
+                [C02,C03,C04|fastq.read_set.inv.records_are_the_next_k] self.rs_c(old(self), rset),
                 n_records != Some(0usize), old(self).state != State::Finished,
                 [C09|fastq.read_set.inv.capacity] self.buf_reader.cap() >= old(self).buf_reader.cap() && (n_records is None ==> is_new)
                     && (n_records is None && old(self).clean() && !old(self).poisoned() && self.buf_reader.cap() > old(self).buf_reader.cap() ==>
                         0 <= grow_at && nofit(old(self).f(), gstart(old(self).f(), old(self).cursor(), grow_at), old(self).buf_reader.cap() as int)),
             ensures
-                [C04|fastq.read_set.loop_exit_nonempty] rset.n() >= 1,
-                [C04|fastq.read_set.loop_exit_exact_or_end] n_records matches Some(m) ==> rset.n() == m || self.state == State::Finished,
+                [C02,C03,C04|fastq.read_set.loop_exit_nonempty] rset.n() >= 1,
+                [C02,C03,C04|fastq.read_set.loop_exit_exact_or_end] n_records matches Some(m) ==> rset.n() == m || self.state == State::Finished,
             decreases
                 self.f().len() + 2 - self.gpos(),
                 (if self.incomplete_pos is Some { 0int } else { 1int }),
@@ -1397,7 +1395,7 @@ trait RecordD {
         requires
             old(self).wf(), old(rset).wf(),
         ensures
-            [C04|fastq.read_record_set.is_exact_none] final(self).wf() && final(rset).wf() && final(self).f() == old(self).f()
+            [C02,C03,C04|fastq.read_record_set.is_exact_none] final(self).wf() && final(rset).wf() && final(self).f() == old(self).f()
                 && (r matches Some(Ok(_)) ==> final(rset).n() >= 1),
 //@end
 }
